@@ -179,7 +179,12 @@ fn one_run(seed: u64, run: u64, exhaustive_budgets: bool) -> RunResult {
     case.knobs = knobs;
     case.sched_seed = rng.next_u64();
     let is_composed = rng.chance(1, 3);
-    case.extra = json!({"mode": if is_composed { "composed" } else { "pure" }, "dump_is_last": true});
+    case.extra = if is_composed {
+        // ballast: every slice end then really collects
+        json!({"mode": "composed", "dump_is_last": true, "ballast": 0.745})
+    } else {
+        json!({"mode": "pure", "dump_is_last": true})
+    };
     if is_composed {
         case.gc = GcPlan::None;
     }
